@@ -71,7 +71,8 @@ def variants(rec, desc, has_header=False):
 def call_outcome(g, entry, text, pos, fp):
     o = observe.observe(g, text, entry, pos, fp)
     idx = None
-    if o.exc is not None:
+    if o.exc is not None and o.outcome[0] in ('error', 'partial'):
+        # (an exception of the user's own inline Python -- outcome 'other' -- has no position)
         try:
             idx = o.exc.position.index if o.outcome[0] == 'error' else o.exc.last_position.index
         except Exception:
@@ -197,6 +198,10 @@ STATEFUL = [
     ('annotations', '```\ndef conv(x: int, pad: str = "0") -> int:\n    return int(x)\nCAST = conv.__annotations__["x"]\nwidth: int = 3\n'
                     'class Box:\n    size: int = 2\n```\nstart = (/[0-9]+/ |> `CAST`)+ << Tail\nTail = `(width, Box.__annotations__["size"](1.5), isinstance(CAST, type))`\nignore / +/\n',
      ['7', '12 3', '', 'x']),
+    # ... and so are assert statements and docstrings (the saved source is run by an interpreter without -O)
+    ('asserts-docstrings', '```\ndef check(x):\n    "a documented helper"\n    assert x != "b", "no b please"\n    return (x, check.__doc__, __debug__)\n```\n'
+                           'start = (/[abc]/ |> `check`)*\n',
+     ['a', 'ac', '', 'ab', 'b']),
     ('generation-counter', '```\nimport itertools\nfresh = itertools.count(1)\n```\nstart = ("x" >> `next(fresh)`)*\n',
      ['xx', 'x', '', 'xxx']),
 ]
